@@ -111,6 +111,7 @@ bool computeFresh(const Case &cs, const std::vector<std::pair<std::string, std::
   pid_t pid = fork();
   if (pid < 0) return false;
   if (pid == 0) {
+    reattachReports();
     close(fd[0]);
     std::string all;
     for (auto &j : jobs) { std::string v = j.second(); all += j.first + "\t" + oneLineStr(v) + "\n"; }
